@@ -131,7 +131,10 @@ func (plainBytes__Assembler) AssignString(string) error {
 	return mixins.BytesAssembler{TypeName: "bytes"}.AssignString("")
 }
 func (na *plainBytes__Assembler) AssignBytes(v []byte) error {
-	na.w = datamodel.Node(plainBytes(v))
+	// A pointer, like NewBytes returns: plainBytes itself is a slice type, and a node of an uncomparable
+	// dynamic type makes any `==` between nodes panic.
+	w := plainBytes(v)
+	na.w = &w
 	return nil
 }
 func (plainBytes__Assembler) AssignLink(datamodel.Link) error {
@@ -148,7 +151,8 @@ func (na *plainBytes__Assembler) AssignNode(v datamodel.Node) error {
 	if v2, err := v.AsBytes(); err != nil {
 		return err
 	} else {
-		na.w = plainBytes(v2)
+		w := plainBytes(v2)
+		na.w = &w
 		return nil
 	}
 }
